@@ -305,7 +305,15 @@ class SymExec:
                 if r[0] == "ref" and pse.final_states:
                     # a promoted returns the address of its own temporary: take the value
                     fs = next(iter(pse.final_states.values()))
-                    return ("refv", pse.read(fs, r[1]))
+                    val = pse.read(fs, r[1])
+                    for _ in range(4):          # `&&CONST`: the temporary holds the address of another
+                        if val[0] == "ref" and val[1][0] == "local":
+                            val = ("refv", pse.read(fs, val[1]))
+                        elif val[0] == "refv" and val[1][0] == "ref" and val[1][1][0] == "local":
+                            val = ("refv", ("refv", pse.read(fs, val[1][1])))
+                        else:
+                            break
+                    return ("refv", val)
                 return r
             return ("unknown", "promoted")
         ty = self.fb.ty(v["ty"]).s if "ty" in v else "?"
@@ -460,10 +468,24 @@ class SymExec:
                 self.write(st, dest, r)
                 snap = (("refv", self.read(st, args[0][1])), args[1])
                 return {"k": "call", "name": name, "args": snap, "locargs": args, "term": r, "inlined": True, "ret": r, "site": site, "dest": dest, "elem_access": True}
+        # `?` on a value whose variant is known (a spliced helper's `Ok(v)` / `Err(e)`): exact
+        if name.endswith(" as std::ops::Try>::branch") and len(args) == 1 and args[0][0] == "agg" and args[0][1] == "adt" and args[0][2] in ("std::result::Result", "std::option::Option"):
+            x = args[0]
+            is_res = x[2] == "std::result::Result"
+            good = (x[3] == 0) if is_res else (x[3] == 1)
+            if good:
+                v = ("agg", "adt", "std::ops::ControlFlow", 0, (x[4][0],))
+            else:
+                v = ("agg", "adt", "std::ops::ControlFlow", 1, (("agg", "adt", x[2], x[3], x[4]),))
+            dest = self.place_loc(st, t["dest"])
+            self.write(st, dest, v)
+            return {"k": "call", "name": name, "args": args, "locargs": args, "term": v, "inlined": True, "ret": v, "site": site, "dest": dest}
         # mem::replace(&mut x, v) / mem::take(&mut x) / mem::swap(&mut a, &mut b): exact
         if name in ("std::mem::replace", "core::mem::replace") and len(args) == 2 and args[0][0] == "ref":
             old = self.read(st, args[0][1])
             self.write(st, args[0][1], args[1])
+            # the store is a store like any other: recorded at the terminator's position
+            self.assigns[(bb, len(self.body.blocks[bb]["stmts"]))] = (args[0][1], args[1])
             dest = self.place_loc(st, t["dest"])
             self.write(st, dest, old)
             return {"k": "call", "name": name, "args": (("mutref", 0), args[1]), "locargs": args, "term": old, "inlined": True, "ret": old, "site": site, "dest": dest}
